@@ -49,7 +49,7 @@ SortNames(set) == SetToSortSeq(set, LAMBDA p, q : NameRank(p) < NameRank(q))
 \* Regular expressions are restricted to patterns whose match set over the universe is
 \* written down here; the driver logs the real regexp's match set for every case.
 \* the last two: fully anchored alternations of literals written in another order than the columns are sorted, one name twice
-RegexOrder == <<"^a", "a|b", "host", ".*", "^h", "o", "zz", "^[abc]$", "^(c|a)$", "^(b|a|b)$">>
+RegexOrder == <<"^a", "a|b", "host", ".*", "^h", "o", "zz", "^[abc]$", "^(region|host)$", "^(max|host|max)$">>
 RegexSet == ToSet(RegexOrder)
 ReMatch(re) == CASE re = "^a"      -> {"a"}
                  [] re = "a|b"     -> {"a", "b", "max", "mean"}
@@ -59,8 +59,8 @@ ReMatch(re) == CASE re = "^a"      -> {"a"}
                  [] re = "o"       -> {"count", "host", "region"}
                  [] re = "zz"      -> {}
                  [] re = "^[abc]$" -> {"a", "b", "c"}
-                 [] re = "^(c|a)$" -> {"a", "c"}
-                 [] re = "^(b|a|b)$" -> {"a", "b"}
+                 [] re = "^(region|host)$" -> {"host", "region"}
+                 [] re = "^(max|host|max)$" -> {"host", "max"}
 Matches(re, n) == n \in ReMatch(re)
 
 \* ------------------------------------------------------------------ types
